@@ -285,6 +285,15 @@ class Evaluator(object):
                         al[n] = al.get(n, ()) + tuple(x for x in slots if x not in al.get(n, ()))
                 env[k] = al
                 continue
+            if k in ('__bt__', '__st__'):
+                # binding times of local names / store times of attribute families: merged so that a stale alias is only reported when it is stale on
+                # every merged path (latest binding, earliest store)
+                keys = set(vals[0])
+                for d in vals[1:]:
+                    keys &= set(d)
+                pick = max if k == '__bt__' else min
+                env[k] = {n: pick(d[n] for d in vals) for n in keys}
+                continue
             env[k] = mkphi(vals)
         facts = dict(first.facts)
         for s in states[1:]:
@@ -757,6 +766,14 @@ class Evaluator(object):
             st.env[tgt.id] = value
             if '__aliases__' in st.env:
                 self._drop_alias(st, tgt.id)
+            if value[0] == 'attr' and value[1][0] == 'param':
+                bt = dict(st.env.get('__bt__', {}))
+                bt[tgt.id] = len(st.events)
+                st.env['__bt__'] = bt
+            elif '__bt__' in st.env and tgt.id in st.env['__bt__']:
+                bt = dict(st.env['__bt__'])
+                del bt[tgt.id]
+                st.env['__bt__'] = bt
             return [st]
         if isinstance(tgt, (ast.Tuple, ast.List)):
             states = [st]
@@ -779,11 +796,20 @@ class Evaluator(object):
             out = []
             for o, s in self.ev(tgt.value, st):
                 self.emit(s, 'store_attr', o, tgt.attr, value, node=node)
+                if o[0] == 'param':
+                    stt = dict(s.env.get('__st__', {}))
+                    stt[(o, tgt.attr.lstrip('_'))] = len(s.events)
+                    s.env['__st__'] = stt
                 out.append(s)
             return out
         if isinstance(tgt, ast.Subscript):
             out = []
             for (o, i), s in self.ev_seq([tgt.value, tgt.slice], st):
+                if isinstance(tgt.value, ast.Name) and o[0] == 'attr' and '__st__' in s.env and tgt.value.id in s.env.get('__bt__', {}):
+                    # `x = self.a` ... `self._a = <new object>` ... `x[i] = v`: the write goes to the object x was bound to, not to what self.a holds now
+                    t_store = s.env['__st__'].get((o[1], o[2].lstrip('_')))
+                    if t_store is not None and s.env['__bt__'][tgt.value.id] < t_store:
+                        self.emit(s, 'stale', o, tgt.value.id, value, node=node)
                 self.emit(s, 'store_sub', o, i, value, node=node)
                 # re-bind local container names
                 if isinstance(tgt.value, ast.Name) and tgt.value.id in s.env:
@@ -2140,7 +2166,14 @@ class Evaluator(object):
             s = self.merge([s for _, s in results], base_events)
             results = [(vals, s)]
         for r, s in results:
+            stored = s.env.get('__st__')
             s.env = dict(saved_env)
+            if stored:
+                # attribute stores made by the callee (on objects the caller knows: parameters) count for the caller's stale-alias bookkeeping
+                merged = dict(s.env.get('__st__', {}))
+                for key, t_ in stored.items():
+                    merged[key] = max(t_, merged.get(key, -1))
+                s.env['__st__'] = merged
             self.emit(s, 'leave', call, fi.qualname, node=node)
         return results
 
